@@ -104,9 +104,11 @@ class GetDescriptorHandlerDistributed(Elaboratable):
             # Create the generator...
             if isinstance(raw_descriptor, bytes):
                 generator = USBDescriptorStreamGenerator(raw_descriptor)
+                descriptor_length = len(raw_descriptor)
             else:
                 generator = raw_descriptor()
-            descriptor_generators[(type_number, index)] = generator
+                descriptor_length = generator.data_length
+            descriptor_generators[(type_number, index)] = (generator, descriptor_length)
 
             m.d.comb += [
                 generator.max_length     .eq(length),
@@ -122,21 +124,43 @@ class GetDescriptorHandlerDistributed(Elaboratable):
         # Connect up each of our generators.
         #
 
+        # Strobe that requests a zero-length packet. A read that starts at the end of the descriptor -- which
+        # happens when the descriptor's length is a multiple of the packet size and the host asked for more --
+        # must be answered with a ZLP, so the host knows the previous packet was the last one.
+        send_zlp = Signal()
+        m.d.usb += send_zlp.eq(0)
+
         with m.Switch(self.value):
 
             # Generate a conditional interconnect for each of our items.
-            for (type_number, index), generator in descriptor_generators.items():
+            for (type_number, index), (generator, descriptor_length) in descriptor_generators.items():
 
                 # If the value matches the given type number...
                 with m.Case(type_number << 8 | index):
 
                     # ... connect the relevant generator to our output.
                     m.d.comb += generator.stream  .attach(self.tx)
-                    m.d.usb += generator.start    .eq(self.start),
+
+                    # Start the generator, unless there's nothing left to send; then request a ZLP instead.
+                    # (The generator's own start_position is only wide enough for positions inside the data.)
+                    with m.If(self.start_position >= descriptor_length):
+                        m.d.usb += [
+                            generator.start   .eq(0),
+                            send_zlp          .eq(self.start),
+                        ]
+                    with m.Else():
+                        m.d.usb += generator.start    .eq(self.start),
 
             # If none of our descriptors match, stall any request that comes in.
             with m.Default():
                 m.d.comb += self.stall.eq(self.start)
+
+        # Pulse `last` without `first` to indicate a ZLP.
+        with m.If(send_zlp):
+            m.d.comb += [
+                self.tx.valid  .eq(1),
+                self.tx.last   .eq(1),
+            ]
 
 
         return m
